@@ -403,33 +403,71 @@ func baseSetMetatable(L *LState) int {
 
 func baseToNumber(L *LState) int {
 	base := L.OptInt(2, 10)
-	noBase := L.Get(2) == LNil
 
 	switch lv := L.CheckAny(1).(type) {
 	case LNumber:
 		L.Push(lv)
 	case LString:
-		str := strings.Trim(string(lv), " \n\t")
-		if strings.Index(str, ".") > -1 {
-			if v, err := strconv.ParseFloat(str, LNumberBit); err != nil {
+		if base == 10 {
+			// standard conversion, the same one arithmetic on strings uses
+			if v, err := parseNumber(string(lv)); err != nil {
 				L.Push(LNil)
 			} else {
-				L.Push(LNumber(v))
+				L.Push(v)
 			}
+		} else if v, ok := parseInteger(string(lv), base); !ok {
+			L.Push(LNil)
 		} else {
-			if noBase && strings.HasPrefix(strings.ToLower(str), "0x") {
-				base, str = 16, str[2:] // Hex number
-			}
-			if v, err := strconv.ParseInt(str, base, LNumberBit); err != nil {
-				L.Push(LNil)
-			} else {
-				L.Push(LNumber(v))
-			}
+			L.Push(v)
 		}
 	default:
 		L.Push(LNil)
 	}
 	return 1
+}
+
+// parseInteger converts a string of digits of the given base (2..36, letters stand
+// for 10..35 in either case), optionally signed and surrounded by white space.
+// Base 16 allows a 0x prefix, like strtoul.
+func parseInteger(str string, base int) (LNumber, bool) {
+	if base < 2 || base > 36 {
+		return 0, false
+	}
+	str = strings.Trim(str, " \t\n\v\f\r")
+	neg := false
+	if len(str) > 0 && (str[0] == '-' || str[0] == '+') {
+		neg = str[0] == '-'
+		str = str[1:]
+	}
+	if base == 16 && len(str) > 2 && str[0] == '0' && (str[1] == 'x' || str[1] == 'X') {
+		str = str[2:]
+	}
+	if len(str) == 0 {
+		return 0, false
+	}
+	value := 0.0
+	for i := 0; i < len(str); i++ {
+		d := 36
+		switch c := str[i]; {
+		case '0' <= c && c <= '9':
+			d = int(c - '0')
+		case 'a' <= c && c <= 'z':
+			d = int(c-'a') + 10
+		case 'A' <= c && c <= 'Z':
+			d = int(c-'A') + 10
+		}
+		if d >= base {
+			return 0, false
+		}
+		value = value*float64(base) + float64(d)
+	}
+	if v, err := strconv.ParseUint(str, base, 64); err == nil {
+		value = float64(v) // exact rounding where the float accumulation above is not
+	}
+	if neg {
+		value = -value
+	}
+	return LNumber(value), true
 }
 
 func baseToString(L *LState) int {
